@@ -15,6 +15,7 @@
 // The caller's array lies between two canary blocks inside one allocation (a write next to the array is
 // observed, not just crashed on); everything runs under ASan/UBSan as well.
 #include "common.h"
+#include <climits>
 #include <cerrno>
 #include <potassco/string_convert.h>
 using Potassco::StringBuilder;
@@ -75,8 +76,19 @@ static void runCase(Case& c, Obs& o, bool stale) {
 				if (op == 1) { size_t n = (size_t)c.next(); std::string d = c.bytes(n); b.append(d.data(), d.size()); }
 				else if (op == 2) { size_t n = (size_t)c.next(); std::string d = c.bytes(n); b.append(d.c_str()); }
 				else if (op == 3) { ll n = c.next(); char ch = (char)c.next(); b.append((std::size_t)(unsigned long long)n, ch); }
-				else if (op == 4) { long long v = c.next(); b.append(v); }
-				else if (op == 5) { unsigned long long v = (unsigned long long)c.next(); b.append(v); }
+				else if (op == 4) {
+					// every signed overload that can hold the value, chosen by the value (seeded C17-r12: one inline overload in the header forwards through the wrong type)
+					long long v = c.next(); unsigned sel = (unsigned)((unsigned long long)v % 3u);
+					if      (sel == 1 && v >= INT_MIN && v <= INT_MAX) { b.append((int)v); }
+					else if (sel == 2)                                  { b.append((long)v); }
+					else                                                { b.append(v); }
+				}
+				else if (op == 5) {
+					unsigned long long v = (unsigned long long)c.next(); unsigned sel = (unsigned)(v % 3u);
+					if      (sel == 1 && v <= UINT_MAX) { b.append((unsigned)v); }
+					else if (sel == 2)                  { b.append((unsigned long)v); }
+					else                                { b.append(v); }
+				}
 				else if (op == 6) {
 					size_t pl = (size_t)c.next(); std::string pre = c.bytes(pl);
 					ll spec = c.next();
